@@ -444,14 +444,13 @@ def stmt_key(node: ast.AST, limit: int = 120) -> str:
 
 
 def walk_no_nested(node: ast.AST) -> Iterator[ast.AST]:
-    """ast.walk that does not descend into nested function/class/lambda bodies."""
-    stack = list(ast.iter_child_nodes(node))
-    while stack:
-        n = stack.pop()
+    """Pre-order, source-order walk that does not descend into nested
+    function/class/lambda bodies (the nested def node itself is yielded)."""
+    for n in ast.iter_child_nodes(node):
         yield n
         if isinstance(n, (ast.FunctionDef, ast.AsyncFunctionDef, ast.ClassDef, ast.Lambda)):
             continue
-        stack.extend(ast.iter_child_nodes(n))
+        yield from walk_no_nested(n)
 
 
 def body_without_docstring(fn: ast.AST) -> list[ast.stmt]:
